@@ -249,6 +249,7 @@ package schema
 //@   modifies p.lookahead, p.lexer.pos, p.lexer.width, p.lexer.start, p.lexer.state, chanstate(p.lexer.items)
 //@   ensures wfp(p) && p.lexer == old(p.lexer) && p.fatal == old(p.fatal)
 //@   ensures item.Start >= 0 && item.Start <= item.End
+//@   ensures old(p.lookahead) != nil ==> item.Typ == old(p.lookahead.Typ) && item.Val == old(p.lookahead.Val)
 //@   ensures[C12] consumes-or-broken: pm(p) < old(pm(p)) || (isbroken(item) && pm(p) <= old(pm(p)))
 
 //@ func (*parser).peek
@@ -305,12 +306,14 @@ package schema
 //@ func (*parser).match
 //@   props C12
 //@   noframe
-//@   opt dead-ok unexpected token type
+//@   opt dead-ok unexpected token type; switch token := token.(type)
 //@   requires wfp(p)
 //@   requires[C12] token-kinds: forall i in 0..len(tokens) :: tokenok(tokens[i])
 //@   modifies p.lookahead, p.fatal, p.errors, p.lexer.pos, p.lexer.width, p.lexer.start, p.lexer.state, chanstate(p.lexer.items), pointees(tokens)
 //@   ensures wfp(p) && p.lexer == old(p.lexer) && pm(p) <= old(pm(p)) && (old(p.fatal) ==> p.fatal) && (!matched ==> p.fatal)
+//@   ensures[C12] literal-token-is-progress: matched && len(tokens) >= 1 && istype(tokens[0], string) && as(tokens[0], string) != "broken state" ==> pm(p) < old(pm(p))
 //@   loop 1 invariant wfp(p) && p.lexer == old(p.lexer) && pm(p) <= old(pm(p)) && (old(p.fatal) ==> p.fatal) && (forall i in 0..len(tokens) :: tokenok(tokens[i]))
+//@   loop 1 invariant $n >= 1 && istype(tokens[0], string) && as(tokens[0], string) != "broken state" ==> pm(p) < old(pm(p))
 
 //@ func is
 //@   props C12
@@ -363,7 +366,7 @@ package schema
 //@   requires wfp(p)
 //@   modifies p.lookahead, p.fatal, p.errors, p.checks, p.lexer.pos, p.lexer.width, p.lexer.start, p.lexer.state, chanstate(p.lexer.items)
 //@   ensures wfp(p) && p.lexer == old(p.lexer) && pm(p) <= old(pm(p)) && (old(p.fatal) ==> p.fatal)
-//@   ensures[C12] nil-only-when-fatal-or-progress: isnil(child) ==> p.fatal || pm(p) < old(pm(p))
+//@   ensures[C12] progress-unless-fatal: p.fatal || pm(p) < old(pm(p))
 
 //@ func (*parser).parseNotExpression
 //@   props C12
@@ -381,6 +384,7 @@ package schema
 //@   decreases depth
 //@   ensures wfp(p) && p.lexer == old(p.lexer) && pm(p) <= old(pm(p)) && (old(p.fatal) ==> p.fatal)
 //@   loop 1 invariant wfp(p) && p.lexer == old(p.lexer) && pm(p) <= old(pm(p)) && (old(p.fatal) ==> p.fatal) && (isnil(operands) || fresh(operands)) && (isnil(operators) || fresh(operators))
+//@   loop 1 invariant forall k in 0..len(operands) :: operands[k] != nil
 //@   loop 1 decreases[C12] p.fatal ? 0 : pm(p) + 1
 
 //@ func (*parser).matchSubjectSet
